@@ -90,12 +90,14 @@ void h_DuplicateVerts(void) {
   int inc = s.inclusion.ptr_[vert], base = s.vertR.ptr_[vert];
   /* exclusive-scan precondition established by Boolean3::Result (boolean_result.cpp:800-808): the slots of this vertex lie inside the output */
   __CPROVER_assume(inc > -1000 && inc < 1000 && base >= 0 && (unsigned long)base + (unsigned long)(inc < 0 ? -inc : inc) <= nR);
+  ghost_slot = nondet_ulong();   /* globals are zero-initialised: make the quantified slot arbitrary */
   __CPROVER_assume(ghost_slot < nR);
   struct linalg_vec_double_3 before = s.vertPosR.ptr_[ghost_slot], src = s.vertPosP.ptr_[vert];
   /* positions are NaN-free (IsFinite gate), so == compares bit patterns up to -0 */
   __CPROVER_assume(SAME3(src, src) && SAME3(before, before));
   ghost_before = before; ghost_src = src;
   HARNESS_END;
+  SATISFIABLE(ghost_slot > (unsigned long)base && inc > 1);
   DuplicateVerts_call(&s, vert);
   struct linalg_vec_double_3 after = s.vertPosR.ptr_[ghost_slot];
   _Bool mine = ghost_slot >= (unsigned long)base && ghost_slot < (unsigned long)base + (unsigned long)(inc < 0 ? -inc : inc);
